@@ -32,9 +32,16 @@ func genCase(seed int64, idx int, o genOpts) *Case {
 	rnd := newRand(seed, "gen-"+o.profile, idx)
 	c := &Case{Idx: idx, Profile: o.profile, Scripts: map[string][]PPack{}}
 	nP := 1 + rnd.Intn(o.maxP)
+	// both clusters usually use the same physical channel names
+	sameNames := rnd.Intn(2) == 0
+	sname, dname := srcPName, dstPName
+	if sameNames {
+		sname = func(i int) string { return fmt.Sprintf("by-dev-rootcoord-dml_%d", i) }
+		dname = sname
+	}
 	for i := 0; i < nP; i++ {
-		c.SrcPs = append(c.SrcPs, srcPName(i))
-		c.DstPs = append(c.DstPs, dstPName(i))
+		c.SrcPs = append(c.SrcPs, sname(i))
+		c.DstPs = append(c.DstPs, dname(i))
 	}
 	c.SrcChanNum, c.DstChanNum = nP, nP
 	c.TTInterval = []int{1, 1, 10000}[rnd.Intn(3)]
@@ -42,6 +49,13 @@ func genCase(seed int64, idx int, o genOpts) *Case {
 	c.DelayPermil = []int{0, 250, 500}[rnd.Intn(3)]
 
 	nColl := 1 + rnd.Intn(o.maxColls)
+	// crosswise base pairing: nP single-shard anchor collections placed by a permutation of the channels
+	var crossPerm []int
+	if o.deviants && !o.oneDst && nP >= 2 && rnd.Intn(3) == 0 {
+		crossPerm = rnd.Perm(nP)
+		nColl = nP + 1 + rnd.Intn(2)
+	}
+	overlapIDs := rnd.Intn(3) == 0
 	nextSrcID, nextDstID := int64(1000+rnd.Intn(50)*10), int64(7000+rnd.Intn(50)*10)
 	dbs := []string{"default", "default", "db1"}
 	uid := int64(idx%1000)*100000 + 1
@@ -52,7 +66,9 @@ func genCase(seed int64, idx int, o genOpts) *Case {
 		nextSrcID += int64(1 + rnd.Intn(7))
 		nextDstID += int64(1 + rnd.Intn(7))
 		var srcIdx []int
-		if ci == 0 {
+		if crossPerm != nil && ci < nP {
+			srcIdx = []int{ci}
+		} else if ci == 0 {
 			// anchor: one shard on every source pchannel, base pairing src_i <-> dst_i
 			for i := 0; i < nP; i++ {
 				srcIdx = append(srcIdx, i)
@@ -63,7 +79,9 @@ func genCase(seed int64, idx int, o genOpts) *Case {
 			sort.Ints(srcIdx)
 		}
 		dstIdx := append([]int{}, srcIdx...)
-		if o.oneDst {
+		if crossPerm != nil && ci < nP {
+			dstIdx = []int{crossPerm[ci]}
+		} else if o.oneDst {
 			for i := range dstIdx {
 				dstIdx[i] = 0
 			}
@@ -73,7 +91,7 @@ func genCase(seed int64, idx int, o genOpts) *Case {
 			sort.Ints(dstIdx)
 		}
 		for k := range srcIdx {
-			sp, dp := srcPName(srcIdx[k]), dstPName(dstIdx[k])
+			sp, dp := sname(srcIdx[k]), dname(dstIdx[k])
 			col.Shards = append(col.Shards, ShardSpec{SrcP: sp, SrcV: vName(sp, col.SrcID, k), DstP: dp, DstV: vName(dp, col.DstID, k)})
 		}
 		col.Parts = append(col.Parts, PartSpec{Name: "_default", SrcID: col.SrcID*10 + 1, DstID: col.DstID*10 + 1, PreDownstream: true, CreateTs: col.CreateTs})
@@ -82,6 +100,20 @@ func genCase(seed int64, idx int, o genOpts) *Case {
 				PreDownstream: col.PreDownstream && rnd.Intn(2) == 0, CreateTs: col.CreateTs + uint64(pi+1)})
 		}
 		c.Colls = append(c.Colls, col)
+	}
+	if overlapIDs && len(c.Colls) >= 2 {
+		// both clusters allocate ids from the same space: a downstream id may equal another collection's source id
+		n := len(c.Colls)
+		for i := range c.Colls {
+			col := &c.Colls[i]
+			col.DstID = c.Colls[(i+1)%n].SrcID
+			for k := range col.Shards {
+				col.Shards[k].DstV = vName(col.Shards[k].DstP, col.DstID, k)
+			}
+			for pi := range col.Parts {
+				col.Parts[pi].DstID = col.DstID*10 + int64(1+pi)
+			}
+		}
 	}
 	if o.oneDst {
 		// more source than downstream channels: up to nP handlers (one per source pchannel) share dst 0
@@ -100,7 +132,16 @@ func genCase(seed int64, idx int, o genOpts) *Case {
 		lateColl = 1 + rnd.Intn(nColl-1)
 	}
 	order := rnd.Perm(nColl)
-	if !o.deviants || rnd.Intn(2) == 0 {
+	if crossPerm != nil {
+		// the single-shard anchors first (they establish the channel pairing), the rest in seeded order
+		order = order[:0]
+		for i := 0; i < nP; i++ {
+			order = append(order, i)
+		}
+		for _, v := range rnd.Perm(nColl - nP) {
+			order = append(order, nP+v)
+		}
+	} else if !o.deviants || rnd.Intn(2) == 0 {
 		// anchor first (deviant collections then find their forward handler immediately)
 		for i, v := range order {
 			if v == 0 {
